@@ -481,15 +481,22 @@ def exactScalar : FieldDecl → Bool
   | .enumCls _ names => !names.isEmpty
   | _ => false
 
+/-- an `AnyOf` (in particular `Optional[X]`): not allowed as a direct element of an exact `Array` / `Tuple` -/
+def isOptionalF : FieldDecl → Bool
+  | .anyOf _ => true
+  | _ => false
+
 mutual
 /-- the exact fragment at field level: exact scalars, homogeneous `Array[X]` / `Tuple[X]` (no
-    `uniqueItems`, any size bounds) over it, and nested Structure classes (by `$ref`; no defaults, the
+    `uniqueItems`, any size bounds) over it, `Optional[X]` (as a class member or inside another
+    Optional-free position, not as a direct array element), and nested Structure classes (by `$ref`; no defaults, the
     class accepts its own instances, required fields declared) whose fields are in it — at any depth.
     Positional items, sized or key-constrained Maps are NOT exact (findings exact:positional-shorter,
     exact:map-size, exact:map-key-constraint) -/
 def exactF : FieldDecl → Bool
-  | .seqOf k f sz => k == .list && !sz.uniq && exactF f
-  | .tupleOf f u => !u && exactF f
+  | .seqOf k f sz => k == .list && !sz.uniq && !isOptionalF f && exactF f
+  | .tupleOf f u => !u && !isOptionalF f && exactF f
+  | .anyOf fs => exactOpt fs
   | .struct c fields defaults =>
     !c.inline && defaults.isEmpty && c.accepts.contains c.name && nodupS (fields.map (·.1))
     && c.required.all (fields.map (·.1)).contains && exactFields fields
@@ -506,6 +513,11 @@ def exactFields : List (String × FieldDecl) → Bool
   | [] => true
   | (_, f) :: ps => exactF f && exactFields ps
 termination_by structural ps => ps
+/-- `Optional[X]` = `AnyOf[X, None]` over an exact `X` (exported as the schema of `X`) -/
+def exactOpt : List FieldDecl → Bool
+  | [] => false
+  | f :: rest => exactF f && (match rest with | [.noneF] => true | _ => false)
+termination_by structural fs => fs
 end
 
 mutual
